@@ -15,6 +15,16 @@ suite "gated"   deterministic schedules.  An SQLite authorizer installed (by the
                 evaluated inside Coq.  Includes every interleaving of two
                 deliveries to an existing folder (20) and to a missing folder (70)
                 and the regression witnesses of the repaired races.
+suite "first"   k simultaneous first deliveries / LOGINs for a brand-new user (one
+                and two DBManagers, empty mailboxes table, new domain) behind a
+                barrier at the first statement of the check-then-insert window.
+suite "hold"    peer in the middle of a first open: a session of one DBManager is
+                stopped before a chosen STATEMENT of its first open of a user or
+                role-mailbox store (schema statements, count, BEGIN, recount, the
+                five INSERTs, COMMIT, the delivery's statements); a session of the
+                other manager does its complete first open + delivery / SELECT /
+                LOGIN; the holder is released.  Compared with Model/ConcInit.v
+                (SQLite lock rules) inside Coq, incl. WHEN the peer is kept out.
 suite "sampled" real, unforced concurrency: k LMTP / IMAP writers in one process,
                 deliveries through a second DBManager on the same directory;
                 every reply collected; final audit of the stores against the
@@ -706,6 +716,192 @@ def run_first(chk, stats):
                                                 {"suite": "first", "scenario": sc, "observed": observed, "model": ev}))
 
 # --------------------------------------------------------------------------
+# hold suite: "peer in the middle of its first open" - one session (the holder)
+# is stopped before a chosen statement of its first open of a store (schema
+# statement, count, BEGIN, recount, each default INSERT, COMMIT, the delivery's
+# own statements); a session of the OTHER DBManager then does its complete first
+# open + operation; the holder is released.  Statement level, deterministic.
+
+ROLE = "team@example.com"
+INIT_SEQ = ["N", "B", "N", "C", "C", "C", "C", "C", "X"]
+HOLD_POINTS = ["T", "N", "B", "C", "X", "Y", "U", "I"]
+
+
+def hold_ops(sc):
+    """sc: dict(kind role|user, peer D|S|L, holder_sep, where ("tx", q) | ("ddl", j) | ("dry", 0))"""
+    rcpt = ROLE if sc["kind"] == "role" else NEWU
+    ops = [{"op": "open", "conn": "c0"},
+           {"op": "send", "conn": "c0", "data": "i0 LOGIN o@example.com pw\r\n", "until": "tag:i0"}]
+    if sc["kind"] == "role":
+        ops.append({"op": "role_create_cold", "email": ROLE})
+        ops.append({"op": "role_assign", "user": "o@example.com", "role": 1})
+    ops.append({"op": "hook_all"})
+
+    def lmtp(name, sep, subj):
+        ops.append({"op": "lmtp_open", "conn": name, "separate_mgr": bool(sep)})
+        for line in ("LHLO x", "MAIL FROM:<a@example.com>", "RCPT TO:<%s>" % rcpt, "DATA"):
+            ops.append({"op": "send", "conn": name, "data": line + "\r\n", "until": "lmtp:1"})
+        return {"conn": name, "steps": [{"data": msg(subj, rcpt) + ".\r\n", "until": "lmtp:1", "timeout_ms": 25000}]}
+    holder = lmtp("h", sc["holder_sep"], "h-msg")
+    if sc["peer"] == "D":
+        peer = lmtp("p", not sc["holder_sep"], "p-msg")
+    elif sc["peer"] == "S":        # IMAP: a user assigned to the role selects its INBOX (server's manager)
+        peer = {"conn": "c0", "steps": [{"data": "t SELECT Roles/%s/INBOX\r\n" % ROLE, "until": "tag:t", "timeout_ms": 25000}]}
+    else:                          # IMAP LOGIN of the brand-new user (server's manager)
+        ops.append({"op": "open", "conn": "p"})
+        peer = {"conn": "p", "steps": [{"data": "t LOGIN %s pw\r\n" % NEWU, "until": "tag:t", "timeout_ms": 25000}]}
+    h = {"op": "hold_run", "points": HOLD_POINTS, "peer_wait_ms": 700, "holder": holder, "peer": peer}
+    kind, n = sc["where"]
+    if kind == "tx":
+        h.update({"from_point": "N", "offset": n})
+    elif kind == "ddl":
+        h["hold_at"] = n
+    ops.append(h)
+    pos = len(ops) - 1
+    ops.append({"op": "dump"})
+    return ops, pos, rcpt
+
+
+def judge_hold(sc, res):
+    """-> trouble, violations, observed dict"""
+    if res.get("crashed"):
+        return "driver crashed: %s" % res.get("stderr", "")[-300:], [], None
+    ops, pos, rcpt = hold_ops(sc)
+    obs = res["obs"]
+    if len(obs) != len(ops):
+        return "driver returned %d observations for %d ops" % (len(obs), len(ops)), [], None
+    for o in obs[:pos]:
+        if o.get("error") or "panic" in o:
+            return "preparation failed: %s" % json.dumps(o)[:200], [], None
+    ho = obs[pos]
+    if ho.get("error") or ho.get("holder") is None or ho.get("peer") is None:
+        return "hold_run did not complete: %s" % json.dumps(ho)[:300], [], None
+    if sc["where"][0] != "dry" and not ho.get("held"):
+        return "the holder was never held (statement %r not reached)" % (sc["where"],), [], None
+
+    def ok_of(rs, imap):
+        bad = [r for r in rs if r["how"] not in ("ok", "")]
+        if bad:
+            return None, json.dumps(bad)[:200]
+        if imap:
+            line = next((l for l in rs[-1]["recv"].split("\r\n") if l.startswith("t ")), "")
+            return line.startswith("t OK"), line
+        line = rs[-1]["recv"].strip()
+        return line[:1] == "2", line
+    hok, hline = ok_of(ho["holder"], False)
+    pok, pline = ok_of(ho["peer"], sc["peer"] != "D")
+    if hok is None or pok is None:
+        return "a session step did not complete: %s %s" % (hline, pline), [], None
+    trace = ho["trace"]
+    at = trace[-1] if ho.get("held") and trace else None
+    where = "before statement #%d of its first open (%s; statements so far: %s)" % (len(trace), at, "".join(trace[-12:]))
+    viol = []
+    what = "role-mailbox store" if sc["kind"] == "role" else "user store"
+    pk = {"D": "first delivery", "S": "IMAP SELECT of the role mailbox", "L": "IMAP LOGIN"}[sc["peer"]]
+    if not pok:
+        viol.append("first open of a %s by two DBManagers: the holder (delivery, %s) is stopped %s; the peer (%s through the other manager) would succeed on its own and is refused: %s" % (
+            what, "second manager" if sc["holder_sep"] else "server's manager", where, pk, pline[:260]))
+    if not hok:
+        viol.append("first open of a %s by two DBManagers: the holder (delivery) was stopped %s while the peer (%s) did its first open; released, it is refused although it succeeds on its own: %s" % (what, where, pk, hline[:260]))
+    dump = obs[pos + 1].get("stores", {})
+    stname = None
+    if sc["kind"] == "role":
+        stname = "role_db_1"
+    else:
+        users = {("%s@%s" % (u[1], u[2])): u[0] for u in dump.get("shared", {}).get("users", [])}
+        stname = "user_db_%s" % users.get(rcpt)
+    st = dump.get(stname, {})
+    names = sorted(m[2] for m in st.get("mailboxes") or [])
+    inbox = [m for m in st.get("mailboxes") or [] if m[2] == "INBOX"]
+    links = sorted(l[3] for l in st.get("links") or [] if inbox and l[2] == inbox[0][0])
+    nd = 1 + (1 if sc["peer"] == "D" else 0)
+    if hok and pok:
+        if names != sorted(DEFAULTS):
+            viol.append("after both first opens the %s holds the mailboxes %r (expected the five defaults once each); holder stopped %s" % (what, names, where))
+        if links != list(range(1, nd + 1)) or (inbox and inbox[0][4] != nd + 1):
+            viol.append("after %d acknowledged first deliveries INBOX of the %s holds UIDs %r with UIDNEXT %s; holder stopped %s" % (nd, what, links, inbox[0][4] if inbox else None, where))
+    observed = {"hok": 1 if hok else 0, "pok": 1 if pok else 0, "defaults": 1 if names == sorted(DEFAULTS) else (0 if not names else 2),
+                "stored": len(links), "early": 1 if ho.get("peer_done_before_release") else 0, "trace": trace}
+    return None, viol, observed
+
+
+def model_h(sc, observed):
+    """statements of the model's init sequence the holder has executed when held"""
+    kind, n = sc["where"]
+    if kind == "ddl":
+        return 0
+    return min(n, 9)
+
+
+def run_hold(chk, stats):
+    quick = chk.tier == "quick"
+    scs = [{"kind": k, "peer": "D", "holder_sep": False, "where": ["dry", 0]} for k in ("role", "user")]
+    for q in range(0, 11):
+        scs.append({"kind": "role", "peer": "D", "holder_sep": q % 2 == 1, "where": ["tx", q]})
+    for j in (1, 14, 30):
+        scs.append({"kind": "role", "peer": "D", "holder_sep": False, "where": ["ddl", j]})
+    for q in ((2, 4, 8) if quick else range(0, 10)):
+        scs.append({"kind": "role", "peer": "S", "holder_sep": True, "where": ["tx", q]})
+    for q in ((1, 2, 3, 4, 8) if quick else range(0, 11)):
+        scs.append({"kind": "user", "peer": "D", "holder_sep": q % 2 == 0, "where": ["tx", q]})
+    for q in ((2, 5) if quick else range(0, 10)):
+        scs.append({"kind": "user", "peer": "L", "holder_sep": True, "where": ["tx", q]})
+    for f in sorted(glob.glob(os.path.join(C.VERIF, "corpus", PID, "*.json"))):
+        d = json.load(open(f))
+        if d.get("suite") == "hold" and d["scenario"] not in scs:
+            scs.append(d["scenario"])
+    ress = C.run_many([hold_ops(sc)[0] for sc in scs], workers=8, timeout=300)
+    cases = []
+    for sc, res in zip(scs, ress):
+        trouble, viol, observed = judge_hold(sc, res)
+        if trouble:
+            res = C.run_ops(hold_ops(sc)[0], timeout=300)
+            trouble, viol, observed = judge_hold(sc, res)
+        if trouble:
+            stats["trouble"] += 1
+            chk.notes.append("hold scenario %s skipped: %s" % (json.dumps(sc), trouble[:200]))
+            continue
+        stats["hold"] += 1
+        for v in viol[:2]:
+            stats["violations"] += 1
+            if stats["violations"] <= 8:
+                chk.violation(v, {"suite": "hold", "scenario": sc, "statements_before_the_hold": observed["trace"][-14:],
+                                  "replay": "bin/check C08 replay <this file>"})
+        if sc["where"][0] == "dry":
+            tr = observed["trace"]
+            seq = tr[tr.index("N"):tr.index("N") + len(INIT_SEQ)] if "N" in tr else []
+            stats["init_seq"][sc["kind"]] = "".join(seq)
+            if seq != INIT_SEQ:
+                stats["pending_broken"].append(("correspondence hold no longer checks: the first open of a %s store runs the statements %s from the first count on, the model (Model/ConcInit.v) has %s" % (sc["kind"], "".join(seq), "".join(INIT_SEQ)),
+                                                {"suite": "hold", "scenario": sc, "trace": tr}))
+            continue
+        cases.append((sc, observed))
+    if not cases:
+        return
+    body = C.COQ_CASE_HEADER + "From Raven Require Import Model.Conc Model.ConcInit.\n"
+    body += "Definition cases : list (txmode * nat) := [%s].\n" % "; ".join(
+        "(begin_mode %s, %d%%nat)" % ("RoleStore" if sc["kind"] == "role" else "UserStore", model_h(sc, o)) for sc, o in cases)
+    body += "Definition res := Eval vm_compute in map eval_hold cases.\nPrint res.\n"
+    rc, log = C.coq_eval_cases(PID + "_hold", body)
+    txt = C.parse_coq_list_out(log, "res") if rc == 0 else None
+    evs = [tuple(int(x) for x in m) for m in re.findall(r"\(\s*(-?\d+)\s*,\s*(-?\d+)\s*,\s*(-?\d+)\s*,\s*(-?\d+)\s*,\s*(-?\d+)\s*\)", (txt or "").replace("%Z", ""))]
+    if len(evs) != len(cases):
+        chk.broken_obligation("in-Coq evaluation of the C08 hold cases failed:\n" + log[-1500:])
+        return
+    for (sc, o), (mh, mp, md, ms, me) in zip(cases, evs):
+        same = (o["hok"], o["pok"], o["defaults"]) == (mh, mp, md) and (sc["peer"] != "D" or o["stored"] == ms)
+        # the peer may be slow (not finished in time although free); it must never be
+        # through while the model says the holder's write lock keeps it out
+        lock_ok = not (o["early"] == 1 and me == 0)
+        if same and lock_ok:
+            stats["hold_agree"] += 1
+        else:
+            stats["pending_broken"].append(("correspondence hold no longer checks: %s store, holder stopped after %d statements of the initialisation sequence, peer %s: implementation (holder ok, peer ok, default sets, stored, peer through before release) = %r, model eval_hold = %r" % (
+                sc["kind"], model_h(sc, o), sc["peer"], (o["hok"], o["pok"], o["defaults"], o["stored"], o["early"]), (mh, mp, md, ms, me)), {"suite": "hold", "scenario": sc}))
+        if o["early"] == 0 and me == 1:
+            stats["hold_slow"] += 1
+
+# --------------------------------------------------------------------------
 
 def corpus_cases():
     out = []
@@ -721,7 +917,7 @@ def run(chk):
     rng = chk.rng
     stats = {"known": {}, "diff": 0, "agree": 0, "clean": 0, "trouble": 0, "violations": 0, "grants": 0,
              "sampled_msgs": 0, "sampled_acked": 0, "sampled_fetch_checked": 0, "pending_broken": [],
-             "first": 0, "first_agree": 0, "first_arrived": []}
+             "first": 0, "first_agree": 0, "first_arrived": [], "hold": 0, "hold_agree": 0, "hold_slow": 0, "init_seq": {}}
     # ---- 1. witnesses of the listed findings (deterministic replay)
     corp = corpus_cases()
     n = run_gated_batches(chk, [[cs for _, cs in corp]], stats, "corpus")
@@ -736,6 +932,8 @@ def run(chk):
     n += run_gated_batches(chk, batches, stats, "gen")
     # ---- 2b. first contact with a store / a domain (barrier inside the check-then-insert window)
     run_first(chk, stats)
+    # ---- 2c. peer in the middle of a first open (user and role stores), statement level
+    run_hold(chk, stats)
     # ---- 3. sampled real concurrency
     n_s = 4 if quick else 40
     sampled_failures = {}
@@ -791,6 +989,10 @@ def run(chk):
     chk.cov["cases_outside_finding_classes"] = stats["clean"]
     chk.cov["known_class_hits"] = stats["known"]
     chk.cov["harness_trouble"] = stats["trouble"]
+    chk.cov["hold_scenarios"] = stats["hold"]
+    chk.cov["hold_agree_with_model"] = stats["hold_agree"]
+    chk.cov["hold_peer_free_but_not_through_in_time"] = stats["hold_slow"]
+    chk.cov["first_open_statement_sequence"] = stats["init_seq"]
     chk.cov["first_contact_scenarios"] = stats["first"]
     chk.cov["first_contact_agree_with_model"] = stats["first_agree"]
     chk.cov["first_contact_sessions_inside_window_together"] = stats["first_arrived"]
@@ -823,6 +1025,15 @@ def replay(path):
         for x in v:
             print("spec violation:", x)
         return 1 if (v or (evs and evs[0][0] != 1)) else 0
+    if d.get("suite") == "hold" and d.get("scenario"):
+        C.pregen_all()
+        sc = d["scenario"]
+        tr, v, o = judge_hold(sc, C.run_ops(hold_ops(sc)[0], timeout=300))
+        print("trouble:", tr)
+        print("observed:", o)
+        for x in v:
+            print("violation:", x)
+        return 1 if v else 0
     if d.get("suite") == "first" and d.get("scenario"):
         sc = d["scenario"]
         stats = {"first_arrived": []}
